@@ -336,7 +336,19 @@ func genCase(r *lib.Rng, id int64, tier string) Case {
 		s := makeStream(r, sp)
 		c.Stream = hex.EncodeToString(s)
 		c.Ops = chunkOps(r, len(s), 4*sp.ncols*sp.nrows, r.Pick([]int{0, 1, 3}))
-		c.Ops = insertMix(r, c.Ops, 2*sp.ncols*sp.nrows, r.Range(1, 4), r.Chance(1, 8))
+		if c.Nsamp > 1 && r.Chance(1, 2) {
+			// one channel asked for f and, later, for f/NSAMP - the number the first request left in the stored
+			// scale: the second request is a change and must take effect (seed C04-18)
+			ch := 2*r.Intn(sp.ncols*sp.nrows) + 1
+			fs := []float64{1, 2, 0.5, -1, 4, 3}
+			f := fs[r.Intn(len(fs))]
+			a := r.Intn(len(c.Ops) + 1)
+			c.Ops = append(c.Ops[:a], append([]Op{{Op: "M", Ch: []int{ch}, Fr: []float64{f}}}, c.Ops[a:]...)...)
+			b := a + 1 + r.Intn(len(c.Ops)-a)
+			c.Ops = append(c.Ops[:b], append([]Op{{Op: "M", Ch: []int{ch}, Fr: []float64{f / float64(c.Nsamp)}}}, c.Ops[b:]...)...)
+		} else {
+			c.Ops = insertMix(r, c.Ops, 2*sp.ncols*sp.nrows, r.Range(1, 4), r.Chance(1, 8))
+		}
 		if r.Chance(1, 4) {
 			c.Ops = addLag(r, c.Ops)
 		}
